@@ -146,7 +146,7 @@ def close_printed(expected, text, digits=6):
         return False
     if math.isinf(expected) or math.isinf(got):
         return expected == got
-    if expected == got:
+    if expected == got or abs(expected - got) <= 1e-12:
         return True
     mag = max(abs(expected), abs(got))
     if mag == 0:
